@@ -66,6 +66,14 @@ def check(m, run):
     el_ok = all(o.ok for o in run.obs[n0:])
     with run.corroborating(el_ok, 'EL2', rules=('GD4.validation-guard', 'GD4.validation-before-work', 'GD4.validation-default-on')):
         _gd4_syntactic(m, run, el, rd)
+    # the results do not depend on the calls made before: no function of helpers.py keeps state in a module-level object (a memo keyed
+    # too coarsely gives a later call the coefficients of an earlier one)
+    P0 = Purity(m)
+    for fi_ in [f for f in m.functions_in('helpers') if f.kind == 'function']:
+        mg = [mu for mu in P0.summary(fi_).mutations if mu.root.startswith('global:')]
+        run.ob('PU5.no-module-state', fi_.key, not mg, 'no module-level state written' if not mg else
+               '%s: %s at `%s` - a value computed for one call is kept in a module-level object and can be served to a later call with other arguments' % (mg[0].root, mg[0].how[:60], norm(mg[0].node)[:70]),
+               site(fi_, mg[0].node) if mg else '')
     for fi in (el, rd):
         pts = params_of(fi.node)[1]
         P = Purity(m)
